@@ -179,13 +179,12 @@ impl Transaction {
                 //   return Ok(hex::decode("0000000000000000000000000000000000000000000000000000000000000001").map_err(|e| anyhow!(e))?)
                 // }
 
-                let txout = tx.get_output(n_tx_in).ok_or_else(|| BSVErrors::OutOfBounds(format!("Could not get TxOut at index {}", n_tx_in)))?;
-                tx.outputs = vec![txout];
+                tx.get_output(n_tx_in).ok_or_else(|| BSVErrors::OutOfBounds(format!("Could not get TxOut at index {}", n_tx_in)))?;
+                // Keep outputs 0..=n_tx_in: the ones before the signed output are blanked, the signed one is committed
+                tx.outputs.truncate(n_tx_in + 1);
 
-                for i in 0..tx.outputs.len() {
-                    if i < n_tx_in {
-                        tx.set_output(i, &TxOut::new(0xffffffffffffffff, &Script::default()));
-                    }
+                for i in 0..n_tx_in {
+                    tx.set_output(i, &TxOut::new(0xffffffffffffffff, &Script::default()));
                 }
 
                 for i in 0..tx.inputs.len() {
